@@ -8,7 +8,7 @@ use log::warn;
 
 use crate::{
     backend::decrypt::DecryptWriteBackend,
-    blob::BlobId,
+    blob::{BlobId, BlobType},
     error::RusticResult,
     repofile::indexfile::{IndexFile, IndexPack},
 };
@@ -39,7 +39,7 @@ where
     /// The time the indexer was created.
     created: SystemTime,
     /// The set of indexed blob ids.
-    indexed: Option<BTreeSet<BlobId>>,
+    indexed: Option<BTreeSet<(BlobType, BlobId)>>,
 }
 
 impl<BE: DecryptWriteBackend> Indexer<BE> {
@@ -159,7 +159,7 @@ impl<BE: DecryptWriteBackend> Indexer<BE> {
 
         if let Some(indexed) = &mut self.indexed {
             for blob in &pack.blobs {
-                _ = indexed.insert(blob.id);
+                _ = indexed.insert((blob.tpe, blob.id));
             }
         }
 
@@ -177,15 +177,18 @@ impl<BE: DecryptWriteBackend> Indexer<BE> {
         Ok(())
     }
 
-    /// Returns whether the given id is indexed.
+    /// Returns whether the blob of the given type and id is indexed.
+    ///
+    /// A tree blob and a data blob may share an id (equal plaintext); they are different blobs.
     ///
     /// # Arguments
     ///
+    /// * `tpe` - The type of the blob.
     /// * `id` - The id to check.
-    pub fn has(&self, id: &BlobId) -> bool {
+    pub fn has(&self, tpe: BlobType, id: &BlobId) -> bool {
         self.indexed
             .as_ref()
-            .is_some_and(|indexed| indexed.contains(id))
+            .is_some_and(|indexed| indexed.contains(&(tpe, *id)))
     }
 }
 
